@@ -42,6 +42,10 @@ observation of a transaction is
   entity (final state for create / update, last state for delete; Properties/C08.v delivered_state, and delivered_state_fixed_at_operation over
   Store/EventsCaller.v, the heap model of the payload pointers); the delivered-state oracle compares digest, id and tags (every struct of the C08
   executor carries the tags {"id": <id>}; a recorder handed other tags prints a TAGS token) with the database;
+* ninth strengthening (seeded C08-w9-2): callers that bring NO context (pseudo veto @nilctx, store_c08_w9.go): the outermost call is
+  Db.Update(nil, fn) / Db.Batch(nil, fn) (also the coalesced Db.Batch calls of @cobatch), everything the program registers is registered inside the
+  function.  The expectation does not depend on who made the context (the model ignores the token): events, commit actions, pre-commit actions and the
+  tx-complete listeners exactly once per committed transaction, nothing for a rolled-back one;
 * correspondence: the same line is printed by the extracted machine (Store/Events.v run_tx_v,
   delivered_to; Store/TxShared.v shared_update - an extension of Store/TxHooks.v db_update - for the program) and compared token by token (results, events, deliveries incl. state digests, hooks).
 """
@@ -163,9 +167,21 @@ def pseudo(tx, name):
     return None
 
 
-def ctx_note(txs_parsed, io, k):
+def nil_ctx(tx, prog):
+    """the outermost Db.Update / Db.Batch call of the transaction is made with a nil context (pseudo veto @nilctx, store_c08_w9.go
+    c08NilCtxApplies)"""
+    return (pseudo(tx, "@nilctx") is not None and not tx["sys"] and pseudo(tx, "@ctx") is None and pseudo(tx, "@rawtx") is None
+            and prog.startswith("|"))
+
+
+def ctx_note(txs_parsed, io, k, prog=""):
     """how the transaction's mutate context was used before - part of the violation text"""
     tx = txs_parsed[k]
+    if nil_ctx(tx, prog):
+        co = pseudo(tx, "@cobatch")
+        return (" [the caller brought NO context: the transaction was started with Db.Update(nil, fn) / Db.Batch(nil, fn)%s; the call makes a "
+                "MutateContext itself - the transaction is a committed transaction like any other]" % (
+                    ", issued together with failing Db.Batch calls bbolt coalesces" if co is not None else ""))
     if pseudo(tx, "@ctx") is not None:
         prior = [j for j in range(k) if pseudo(txs_parsed[j], "@ctx") is not None]
         rolled = [j for j in prior if not io[j]["commit"] and "ok" in io[j]["results"]]
@@ -479,7 +495,8 @@ def oracle(sch, mode, progs, regs, txs, io):
         post = Facts(a["facts"])
         lm = [t for t in a["other"] if t.startswith("LM:")]
         ls = [t for t in a["other"] if t.startswith("LS:")] + (lm if not a["commit"] else [])
-        note = ctx_note(parsed, io, k)
+        note = ctx_note(parsed, io, k, prog)
+        hnote = note if nil_ctx(tx, prog) else ""
         cnote = caller_note(tx)
         raw = raw_spec(tx)
         late = [t for t in a["other"] if t.startswith("LATE:")]
@@ -493,10 +510,10 @@ def oracle(sch, mode, progs, regs, txs, io):
         if not a["commit"]:
             if a["events"] or ls:
                 out.append(("C08:events-after-rollback", "listeners ran for a rolled-back transaction: %s%s" % ((a["events"] + ls)[:4], note), k))
-            out += [(key, desc, k) for key, desc in hook_oracle(mode, prog, a, raw)]
+            out += [(key, desc + hnote, k) for key, desc in hook_oracle(mode, prog, a, raw)]
             prev = post
             continue
-        out += [(key, desc, k) for key, desc in hook_oracle(mode, prog, a, raw)]
+        out += [(key, desc + hnote, k) for key, desc in hook_oracle(mode, prog, a, raw)]
         exp = expected_events(sch, tx, prev, post)
         got = Counter()
         for e in a["events"]:
